@@ -239,6 +239,26 @@ pub fn check(case: &Case, idx: u64, acc: &mut Acc) {
                     }
                 }
             }
+            // dates with a sub-second part: a curve works in whole seconds, rounding DOWN - a millisecond before a node
+            // is the second before it (left of the node), a millisecond after it is the node's own second
+            if *n <= 40 {
+                let mut m: IndexMap<chrono::NaiveDateTime, Number> = IndexMap::new();
+                for k in 0..*n {
+                    m.insert(ts_to_ndt(xs[k]), Number::F64(ys[k]));
+                }
+                let c = VerifCurve::new(m, interp_of(rule), ADOrder::Zero, "crv", Convention::Act360, Modifier::ModF, CalType::Cal(Cal::new(vec![], vec![5, 6])), None).unwrap();
+                let ms = chrono::Duration::milliseconds(1);
+                for k in 0..*n {
+                    acc.evals_add(2);
+                    let node = ts_to_ndt(xs[k]);
+                    let (before, sec_before) = (f64::from(c.get(&(node - ms))), f64::from(c.get(&ts_to_ndt(xs[k] - 1))));
+                    let (after, at) = (f64::from(c.get(&(node + ms))), f64::from(c.get(&node)));
+                    if before.to_bits() != sec_before.to_bits() || after.to_bits() != at.to_bits() {
+                        acc.violate(&format!("sub-second/{}", RULES[rule]), idx, cj(), json!({"node": format!("{}", node), "want": {"1ms_before": sec_before, "1ms_after": at}}), json!({"1ms_before": before, "1ms_after": after}));
+                        break;
+                    }
+                }
+            }
             acc.sample(cj);
         }
         Case::IndexLeft { list } => {
@@ -366,7 +386,7 @@ pub fn run(ctx: &Ctx, replay_file: Option<String>) -> ! {
          the two node values for linear / log-linear; identical (<= 4 ulp, same interval) for every supply \
          permutation. index_left directly: every non-decreasing list of length 2..9 (11) over {1..5} x every query in \
          {0.5, 1, ..., 5.5}, f64 and i64. Larger sizes on a menu: index_left on [1..len] for every len up to 48 (130) with every \
-         element / mid point as query; curves of 7, 8, 9, 15, 16, 17, 24, 31, 32, 33, 64, 101, 130, 255, 256, 257, 300 (and, evenly spaced, 1023, 1024, 1025, 1400, 2100) nodes in three supply orders on six node grids (uneven, evenly spaced, evenly spaced with displaced interior nodes, dense-then-sparse, sparse-then-dense, uneven starting before 1970); curves of 2 .. 12 nodes whose values are 1e300, 1e-300, 1e150, 1e-150, 1, 5e-324 in turn (value judged to 1e-10 where the closed form itself stays in range, interval always). \
+         element / mid point as query; curves of 7, 8, 9, 15, 16, 17, 24, 31, 32, 33, 64, 101, 130, 255, 256, 257, 300 (and, evenly spaced, 1023, 1024, 1025, 1400, 2100) nodes in three supply orders on six node grids, with look-ups one millisecond before and after every node on the smaller ones (uneven, evenly spaced, evenly spaced with displaced interior nodes, dense-then-sparse, sparse-then-dense, uneven starting before 1970); curves of 2 .. 12 nodes whose values are 1e300, 1e-300, 1e150, 1e-150, 1, 5e-324 in turn (value judged to 1e-10 where the closed form itself stays in range, interval always). \
          History independence: look-ups on curve A, then on a curve B with the same node count, first and \
          last date but permuted gaps, then A and B again, on one thread. Non-trivial: queries strictly between nodes; \
          lists of length >= 5; interleaved pairs.",
